@@ -88,6 +88,8 @@ def gp_step(name):
         return TournamentSelection(2, with_replacement=True)
     if name == "mutation05":
         return SequenceStep(TournamentSelection(2, with_replacement=True), GenericMutationStep(0.5))
+    if name == "mutation-then-tournament":
+        return SequenceStep(GenericMutationStep(1), TournamentSelection(2, with_replacement=True))
     raise ValueError(name)
 
 
@@ -109,6 +111,14 @@ def units(tier, seed):
                                     continue
                                 us.append({"algo": algo, "n": n, "budget": kind, "minimize": minimize, "target": target, "size": size,
                                            "step": step, "max_dev": md, "max_execs": me})
+    for n in (4, 7):
+        for size in (2, 3):
+            us.append({"algo": "gp", "n": n, "budget": "eval", "minimize": False, "target": None, "size": size,
+                       "step": "mutation-then-tournament", "max_dev": md, "max_execs": me})
+    for algo, size in (("rs", 1), ("1+1", 1), ("hc", 2), ("gp", 3)):
+        for n in (3, 6):
+            us.append({"algo": algo, "n": n, "budget": "eval", "minimize": False, "target": None, "size": size,
+                       "step": "default" if algo == "gp" else None, "max_dev": md, "max_execs": me, "user_tracker_second_run": True})
     # fitness values just inside / just outside the 1e-4 tolerance of the target, for small and large targets
     for target in (0.0, 100.0):
         near = [target + 3.0, target + 5e-5, target + 5e-3, target - 2e-4, target - 9e-5]
@@ -136,7 +146,14 @@ def run_unit(unit) -> UnitResult:
             return v
 
         problem = SingleObjectiveProblem(ff, minimize=minimize)
-        tracker = SingleObjectiveProgressTracker(problem, SequentialEvaluator())
+        if unit.get("user_tracker_second_run"):
+            # a first complete search with a tracker built the short way (no explicit evaluator), then the observed one
+            first_problem = SingleObjectiveProblem(lambda p: 1.0, minimize=minimize)
+            t1 = SingleObjectiveProgressTracker(first_problem)
+            RandomSearch(first_problem, EvaluationBudget(5), StubRepresentation(2), random=src, tracker=t1).search()
+            tracker = SingleObjectiveProgressTracker(problem)
+        else:
+            tracker = SingleObjectiveProgressTracker(problem, SequentialEvaluator())
         checks = []
         real, ref = budget_pair(unit["budget"], n, unit["target"], fit_log, minimize)
         budget = ProxyBudget(real, ref, checks)
